@@ -5,7 +5,7 @@ from .. import common as C
 from .. import schemarun as R
 
 LEVEL = "proof"
-N = {"quick": 6000, "thorough": 200000}
+N = {"quick": 40000, "thorough": 200000}
 
 
 def has_single_items_or_schema_deps(s):
